@@ -8,6 +8,8 @@ import (
 	"sort"
 	"strconv"
 	"strings"
+	"unicode"
+	"unicode/utf8"
 
 	"bebopverif/internal/load"
 )
@@ -175,6 +177,19 @@ func (in *Interp) native(fv *FuncV, args []Value, at token.Pos) []Value {
 		return []Value{a, b, ok}
 	case "strings.EqualFold":
 		return []Value{strings.EqualFold(str(args[0]), str(args[1]))}
+	case "unicode/utf8.DecodeRuneInString":
+		r, size := utf8.DecodeRuneInString(str(args[0]))
+		return []Value{int64(r), int64(size)}
+	case "unicode/utf8.RuneLen":
+		return []Value{int64(utf8.RuneLen(rune(args[0].(int64))))}
+	case "unicode.ToUpper":
+		return []Value{int64(unicode.ToUpper(rune(args[0].(int64))))}
+	case "unicode.ToLower":
+		return []Value{int64(unicode.ToLower(rune(args[0].(int64))))}
+	case "unicode.IsUpper":
+		return []Value{unicode.IsUpper(rune(args[0].(int64)))}
+	case "unicode.IsLetter":
+		return []Value{unicode.IsLetter(rune(args[0].(int64)))}
 	case "strconv.Itoa":
 		return []Value{strconv.Itoa(int(args[0].(int64)))}
 	case "strconv.FormatInt":
@@ -189,6 +204,19 @@ func (in *Interp) native(fv *FuncV, args []Value, at token.Pos) []Value {
 			return []Value{"", &ErrV{Msg: err.Error()}}
 		}
 		return []Value{s, nil}
+	case "os.Getwd":
+		return []Value{"/virt", nil}
+	case "os.Open":
+		path := str(args[0])
+		in.Opened = append(in.Opened, path)
+		if f, ok := in.VFS[path]; ok {
+			fc := copyVal(f).(*StructV)
+			fc.Set("FileName", path)
+			return []Value{&VFile{Path: path, File: fc}, nil}
+		}
+		return []Value{nil, &ErrV{Msg: "open " + path + ": no such file or directory"}}
+	case "(*os.File).Close":
+		return []Value{nil}
 	case "path.Base":
 		return []Value{path.Base(str(args[0]))}
 	case "path.IsAbs":
